@@ -339,6 +339,30 @@ func (m *Machine) packageScan() *FuncReport {
 			rep.Obligs = append(rep.Obligs, m.pkgObl("panic-guarded", key, []string{"C14"}, ok, why, "every path from this entry point to a reflect operation passes a function that recovers"))
 		}
 	}
+	// an address used as a map key must be held in a pointer-typed field: an integer does not keep the object
+	// alive, and the collector may hand the address to another object while the key is still in the table
+	for _, tf := range pc.PointerFields {
+		ok, why := false, "no such field"
+		if i := strings.LastIndex(tf, "."); i > 0 {
+			if obj := m.pkg.Pkg.Scope().Lookup(tf[:i]); obj != nil {
+				if st, isStruct := obj.Type().Underlying().(*types.Struct); isStruct {
+					for k := 0; k < st.NumFields(); k++ {
+						if st.Field(k).Name() == tf[i+1:] {
+							ft := st.Field(k).Type()
+							why = "has type " + ft.String()
+							switch u := ft.Underlying().(type) {
+							case *types.Pointer:
+								ok = true
+							case *types.Basic:
+								ok = u.Kind() == types.UnsafePointer
+							}
+						}
+					}
+				}
+			}
+		}
+		rep.Obligs = append(rep.Obligs, m.pkgObl("pointer-field", tf, []string{"C04", "C02"}, ok, why, "the address kept in this field keeps its object alive"))
+	}
 	props := []string{"C12"}
 	isRef := func(t types.Type) bool {
 		switch t.Underlying().(type) {
